@@ -16,11 +16,27 @@
    LIST of the per-user marker mailbox; ManageSieve: CAPABILITY (SASL, OWNER),
    LISTSCRIPTS with a per-user marker script); all sequences of two inputs,
    TLC -simulate behaviours and seeded walks (all orders of failed and
-   successful attempts).
+   successful attempts).  On BOTH backends: the dict backend's Login/Identity
+   and the maildir backend's (users in the passwd-style files pymap-etc-passwd /
+   -shadow / -group under the base directory, provisioned through the backend's
+   own Identity.set; the user's mailboxes are found through the path field of
+   the users file).
+3. maildir-specific histories for which Conn has no abstract input (a user
+   without a password entry, a disabled and a locked one, a password entry
+   without user, mailbox paths that lie elsewhere, the file format's separators
+   ':' CR LF in names, '/' and '..' in names, case and Unicode look-alikes, the
+   empty name of a blank line, long names, admin by the roles file / by uid 0):
+   each attempt is followed by the
+   probes "is the connection authenticated (LIST accepted)?  whose marker
+   mailbox does it show?".
+4. code -> spec: every execution of 2. and 3. is written down as a trace of
+   (what was presented, what was observed) and TLC evaluates the clauses of
+   Conn.tla on it (spec/Trace_C09.tla); for 3. that is the only judge.
 """
 
 from __future__ import annotations
 
+import os
 import random
 import time
 
@@ -31,35 +47,80 @@ from . import conn_common as cc
 NOLIMIT = {'bad_command_limit': None}
 IMAP_CFG = 'Conn_c09_imap.cfg'
 SIEVE_CFG = 'Conn_c09_sieve.cfg'
+BACKENDS = ('dict', 'maildir')
 
 
-def make_driver_for(cfg: str):
+def make_driver_for(cfg: str, backend: str = 'dict'):
     def make(env: str, rng):
         # without TLS the peer may be local or remote: both are the model's
         # "plain" environment
         local = rng.random() < 0.5 if env == 'plain' else None
         if cfg.startswith('Conn_c09_sieve'):
-            return cc.SieveDriver(env, rng, local=local)
-        return cc.ImapDriver(env, rng, rich=False, local=local, config_kw=NOLIMIT)
+            return cc.SieveDriver(env, rng, local=local, backend=backend)
+        return cc.ImapDriver(env, rng, rich=False, local=local, config_kw=NOLIMIT,
+                             backend=backend)
     return make
 
 
-def part(run: Run, rng, cfg: str, tier: str, deadline: float, first_id: int) -> dict | None:
-    quick = tier == 'quick'
+# how much of each kind of execution: (quick, thorough); None = all
+SCALE = {
+    ('dict', IMAP_CFG): {'seq_plain': (None, None), 'seq_other': (300, None),
+                         'attempts': (400, 8000), 'sim': (100, 3000), 'walks': (150, 3000)},
+    ('dict', SIEVE_CFG): {'seq_plain': (2400, None), 'seq_other': (300, None),
+                          'attempts': (400, 8000), 'sim': (100, 3000), 'walks': (150, 3000)},
+    ('maildir', IMAP_CFG): {'seq_plain': (1200, None), 'seq_other': (100, None),
+                            'attempts': (150, 8000), 'sim': (30, 2000), 'walks': (60, 3000)},
+    ('maildir', SIEVE_CFG): {'seq_plain': (500, None), 'seq_other': (60, None),
+                             'attempts': (80, 4000), 'sim': (20, 1000), 'walks': (30, 1500)},
+}
+
+_MODELS: dict = {}
+_SIMS: dict = {}
+
+
+def model_of(run: Run, cfg: str, tier: str):
+    if cfg in _MODELS:
+        return _MODELS[cfg]
     model = cc.load_model(run, cfg)
-    if model is None:
-        return None
-    if not quick:
+    if model is not None and tier != 'quick':
         # the step clauses once more, as temporal formulas over the raw actions
         res = tlc.run_tlc('Conn.tla', cfg.replace('.cfg', '_props.cfg'), workers=8,
                           timeout=600)
         run.add_model(res, cfg.replace('.cfg', '_props.cfg'))
         if not res.ok:
             run.machinery(f'temporal clauses of {cfg} failed: {res.violated or res.error}')
-            return None
+            model = None
+    _MODELS[cfg] = model
+    return model
+
+
+def simulated(run: Run, cfg: str, tier: str) -> list | None:
+    """TLC -simulate behaviours of one configuration, shared out among the backends"""
+    if cfg not in _SIMS:
+        q = 0 if tier == 'quick' else 1
+        num = sum(SCALE[(b, cfg)]['sim'][q] for b in BACKENDS)
+        try:
+            behs, sres = tlc.simulate('Conn.tla', cfg, num=num, depth=25, seed=run.seed + 1)
+            run.add_model(sres, cfg + ' -simulate')
+        except Exception as exc:               # noqa: BLE001
+            run.machinery(f'simulation failed: {exc!r}')
+            behs = None
+        _SIMS[cfg] = behs
+    return _SIMS[cfg]
+
+
+def part(run: Run, rng, cfg: str, backend: str, tier: str, deadline: float,
+         first_id: int, traces: list) -> dict | None:
+    quick = tier == 'quick'
+    q = 0 if quick else 1
+    scale = {k: v[q] for k, v in SCALE[(backend, cfg)].items()}
+    model = model_of(run, cfg, tier)
+    if model is None:
+        return None
     info: dict = {'graph': {'nodes': len(model.nodes), 'core_states': len(model.core_nodes),
                             'inputs': len(model.labels)}}
-    ex = cc.Exec(run, 'C09', model, cfg, make_driver_for(cfg), first_id=first_id)
+    ex = cc.Exec(run, 'C09', model, cfg, make_driver_for(cfg, backend), first_id=first_id)
+    ex.keep_traces = True
     t0 = time.time()
     info['tour'] = cc.tour(ex, 300, deadline)
     info['tour_wall_s'] = round(time.time() - t0, 1)
@@ -74,9 +135,10 @@ def part(run: Run, rng, cfg: str, tier: str, deadline: float, first_id: int) -> 
             continue
         seen_env.add(env)
         seqs = list(cc.label_sequences(model, n, 2))
-        if quick:
-            cap = 300 if env != 'plain' else 6000 if cfg == IMAP_CFG else 3000
-            seqs = rng.sample(seqs, min(len(seqs), cap))
+        cap = scale['seq_plain'] if env == 'plain' else scale['seq_other']
+        if cap is not None and cap < len(seqs):
+            seqs = rng.sample(seqs, cap)
+            info['seq_len2_sampled'] = True
         for labels in seqs:
             if time.time() > deadline:
                 info['seq_len2_cut'] = True
@@ -92,36 +154,382 @@ def part(run: Run, rng, cfg: str, tier: str, deadline: float, first_id: int) -> 
     good = [l for l in auths if model.parsed[l]['cred']['k'] == 'right']
     others = [l for l in model.labels if model.parsed[l]['kind'] == 'cmd']
     envs = sorted(cc.ENVS)
-    for i in range(400 if quick else 8000):
+    for i in range(scale['attempts']):
         seq = []
         for _ in range(rng.randint(3, 7)):
             x = rng.random()
             seq.append(rng.choice(good) if x < 0.3 else
                        rng.choice(auths) if x < 0.85 else rng.choice(others))
         cc.run_labels(ex, rng.choice(envs), seq, 'attempts')
-    try:
-        behs, sres = tlc.simulate('Conn.tla', cfg, num=100 if quick else 3000,
-                                  depth=25, seed=run.seed + 1)
-        run.add_model(sres, cfg + ' -simulate')
-    except Exception as exc:               # noqa: BLE001
-        run.machinery(f'simulation failed: {exc!r}')
+    behs = simulated(run, cfg, tier)
+    if behs is None:
         return None
-    for beh in behs:
+    # the behaviours TLC simulated are shared out: dict takes the first ones
+    lo = 0
+    for b in BACKENDS:
+        if b == backend:
+            break
+        lo += SCALE[(b, cfg)]['sim'][q]
+    mine = behs[lo:lo + scale['sim']]
+    for beh in mine:
         labels = [l for l, _ in beh[1:] if l != 'Terminated']
         st0 = beh[0][1]
         env = 'plain' if not st0['stls'] else ('tlslocal' if st0['mechs'] else 'tlsremote')
         cc.run_labels(ex, env, labels, 'simulate')
-    info['simulated_behaviours'] = len(behs)
-    for i in range(150 if quick else 3000):
+    info['simulated_behaviours'] = len(mine)
+    for i in range(scale['walks']):
         cc.biased_walk(ex, rng.choice(envs), rng, rng.randint(6, 25))
     info['random_wall_s'] = round(time.time() - t2, 1)
     info['executions'] = ex.execs
     info['steps_on_server'] = ex.steps
     info['observations'] = sorted(ex.notes)[:10]
+    traces += ex.traces
     return info
 
 
-def starttls_pipelining(run) -> None:
+# --------------------------------------------------------------------------
+# maildir-specific histories
+
+# model name -> (name in the users file, present secret; None: no credentials verify)
+MD_USERS = {
+    'nopw': ('nopw', None),         # line in the users file, none in the passwords file
+    'off': ('off', None),           # Identity.set without a password: '*'
+    'locked': ('locked', None),     # the hash prefixed with '!' by hand (passwd -l)
+    'far': ('far', 'farpw'),        # mailbox path elsewhere/deep/far
+    'out': ('out', 'outpw'),        # mailbox path ../outside: next to the base directory
+    'colon': ('co:lon', 'colonpw'),  # the separator of the file format inside the name
+    'blank': ('', None),            # a blank line in the users file reads as a nameless user
+    'gadm': ('gadm', 'gadmpw'),     # admin by a hand-written line of the roles file
+    'root0': ('root0', 'root0pw'),  # uid 0 in the users file (the backend: admin)
+}
+# names that are nobody's although something of them is left in the files
+MD_GHOSTS = {
+    'orphan': 'orphanpw',           # line in the passwords file, none in the users file
+}
+# the secret these had while they could still log in (to create the marker mailbox)
+MD_WAS = {'nopw': 'nopw-was', 'off': 'off-was', 'locked': 'lockedpw'}
+MD_PATH = {'far': 'elsewhere/deep/far', 'out': '../outside'}
+_MD: dict = {}
+
+
+def _edit(base: str, fname: str, fn) -> None:
+    """an operator with an editor: fn(lines) -> lines (CRLF line ends, as pymap writes them)"""
+    path = os.path.join(base, fname)
+    with open(path, newline='') as f:
+        lines = f.read().split('\r\n')
+    if lines and lines[-1] == '':
+        lines.pop()
+    lines = fn(lines)
+    with open(path, 'w', newline='') as f:
+        f.write(''.join(ln + '\r\n' for ln in lines))
+
+
+def md_template() -> str:
+    """The template store of cc.maildir_template() plus the accounts above, set up by an operator:
+    Identity.set, a first IMAP session each (marker mailbox `marker_<model name>`), then the edits
+    by hand."""
+    if 'tpl' in _MD:
+        return _MD['tpl']
+    import shutil
+    from ..server import World
+    base_tpl = cc.maildir_template()
+    tpl = os.path.join(os.path.dirname(base_tpl), 'tpl-histories')
+    shutil.copytree(base_tpl, tpl, symlinks=True)
+    base = os.path.join(tpl, 'base')
+    w = World('maildir', users=cc.USERS, maildir_dir=base,
+              config_kw={'_provision': False, 'bad_command_limit': None})
+    try:
+        first = {m: (real, MD_WAS.get(m, sec)) for m, (real, sec) in MD_USERS.items()
+                 if m != 'blank'}
+        first.update({m: (m, sec) for m, sec in MD_GHOSTS.items()})
+        for n, (m, (real, sec)) in enumerate(first.items()):
+            if m in MD_PATH:
+                # (pymap creates the user's maildir at the first login with os.mkdir: the
+                # directories above it have to exist, else BYE [SERVERBUG] FileNotFoundError)
+                os.makedirs(os.path.dirname(os.path.normpath(os.path.join(base, MD_PATH[m]))),
+                            exist_ok=True)
+            cc.md_set_user(w, real, sec, path=MD_PATH.get(m))
+            cc.md_first_session(w, f'h{n}', real, sec, 'marker_' + m, sieve=False)
+        cc.md_set_user(w, 'off', None)
+    finally:
+        w.close()
+
+    # by hand
+    def field(line, i, new=None):
+        parts = line.split(':')
+        if new is not None:
+            parts[i] = new
+        return ':'.join(parts)
+    _edit(base, 'pymap-etc-shadow',
+          lambda ls: [('locked:!' + ln.split(':', 1)[1]) if ln.startswith('locked:') else ln
+                      for ln in ls if not ln.startswith('nopw:')])
+    _edit(base, 'pymap-etc-passwd',
+          lambda ls: [field(ln, 2, '0') if ln.startswith('root0:') else ln
+                      for ln in ls if not ln.startswith('orphan:')] + [''])
+    _edit(base, 'pymap-etc-group',
+          lambda ls: [ln + ',gadm' if ln.startswith('admin:') else ln for ln in ls])
+    _MD['tpl'] = tpl
+    _MD['shadow'] = {}
+    with open(os.path.join(base, 'pymap-etc-shadow'), newline='') as f:
+        for ln in f.read().split('\r\n'):
+            if ln:
+                name, _, rest = ln.replace('\\:', '\0').partition(':')
+                _MD['shadow'][name.replace('\0', ':')] = rest.split(':')[0].replace('\0', ':')
+    return tpl
+
+
+def md_table() -> dict:
+    """real name -> (model name, present secret or None) of every EXISTING user"""
+    t = {real: (m, cc.password(real)) for m, real in
+         (('u1', 'user1'), ('u2', cc.U2), ('adm', 'adm'))}
+    t.update({real: (m, sec) for m, (real, sec) in MD_USERS.items()})
+    return t
+
+
+def classify(name: bytes, secret: bytes) -> tuple[str, str]:
+    """(k, c) of what was presented, from the table the store was provisioned with: c = the
+    existing user whose name these octets are exactly, k = right iff the secret is that
+    user's stored one."""
+    table = md_table()
+    try:
+        ent = table.get(name.decode('utf-8'))
+    except UnicodeDecodeError:
+        ent = None
+    if ent is None:
+        return 'unknown', cc.NONE
+    model, sec = ent
+    if sec is not None and secret == sec.encode():
+        return 'right', model
+    return 'wrongpw', model
+
+
+def model_name(name: bytes) -> str:
+    """authorization identity as the trace names it: the existing user, or a string that is
+    nobody's"""
+    if not name:
+        return cc.NONE
+    try:
+        ent = md_table().get(name.decode('utf-8'))
+    except UnicodeDecodeError:
+        ent = None
+    return ent[0] if ent else 'ghost'
+
+
+def presented_names(base_dir: str) -> list:
+    """(octets presented as the name, the user whose secrets go with them)"""
+    u2 = cc.U2
+    out: list = []
+
+    def add(near, *names):
+        for n in names:
+            out.append((n if isinstance(n, bytes) else n.encode(), near))
+    # the accounts themselves
+    add('user1', 'user1')
+    add(u2, u2)
+    add('adm', 'adm')
+    for m, (real, _sec) in MD_USERS.items():
+        add(real, real)
+    add('orphan', 'orphan')
+    # the separators of the file format; the fields next to the name
+    add('user1', 'user1:x', 'user1:', ':user1', 'user1:x::::user1:', 'user1\r\n', 'user1\n',
+        'user1\r', '\nuser1', '\r\nuser1', 'x\r\nuser1', 'user1\r\nadm', 'user1\\', 'user1\0',
+        'user1:x::::adm:')
+    add('co:lon', 'co', 'lon', 'co\\:lon', 'co:lon:', 'co:', 'co:lon:x')
+    add('adm', 'adm\r\nuser1', 'admin', 'x::adm', 'admin:x::adm')
+    add('root0', 'root0:x:0', '0', 'root')
+    # the name as a path
+    add('user1', '../user1', 'user1/', './user1', 'user1/.', 'user1/../user1', '/user1',
+        os.path.join(base_dir, 'user1'), '..', '.', 'far/../user1', 'base/user1',
+        '../base/user1', 'user1/cur', 'user1/.marker_u1', '.marker_u1')
+    add('far', 'elsewhere/deep/far', 'elsewhere', 'deep/far', 'far/')
+    add('out', '../outside', 'outside', '../out')
+    # case, look-alikes (FULLWIDTH u, SOFT HYPHEN, ZERO WIDTH SPACE, SUPERSCRIPT ONE, NO-BREAK
+    # SPACE - what SASLprep / NFKC / casefold map onto the ASCII name), blanks
+    add('user1', 'USER1', 'User1', 'uSER1', '\uff55ser1', 'us\u00ader1', 'user1\u200b',
+        'user\u00b9', 'user1 ', ' user1', 'user1\t', 'user1\u00a0', 'USER\uff11')
+    add(u2, 'USER\uff11', 'user\uff11 ', 'user\U0001d7cf', 'user\uff11\u00ad')
+    add('adm', 'ADM', 'Adm', 'adm ', '\u0430dm')          # CYRILLIC SMALL LETTER A
+    add('far', 'FAR', 'Far')
+    add('co:lon', 'CO:LON', 'Co:lon')
+    # no name, long names, octets that are no UTF-8
+    add('user1', '', ' ', 'user1' * 800, 'u' * 30000, b'user1\xff', b'\xffuser1', b'user\xc0\xb1')
+    return out
+
+
+def secrets_for(near: str, rng) -> list:
+    table = md_table()
+    cands = []
+    sec = table.get(near, (None, MD_GHOSTS.get(near)))[1]
+    was = None
+    for m, (real, _s) in MD_USERS.items():
+        if real == near and m in MD_WAS:
+            was = MD_WAS[m]
+    if near in MD_GHOSTS:
+        sec = MD_GHOSTS[near]
+    if sec is not None:
+        cands.append(sec)
+    if was is not None:
+        cands.append(was)
+    if near in cc.OLD_SECRET:
+        cands.append(cc.OLD_SECRET[near])
+    stored = _MD['shadow'].get(near)
+    if stored:
+        cands.append(stored)                    # the stored representation itself
+        cands.append(stored.lstrip('!'))
+    cands += ['', rng.choice(['x', '*', '!', 'None', 'x' * 5000])]
+    return [c.encode() for c in cands]
+
+
+class History:
+    """One server on a copy of the histories' template; every attempt on its own connection."""
+
+    def __init__(self, env: str, rng):
+        self.env = env
+        self.rng = rng
+        kw = dict(cc.ENVS[env])
+        self.local = kw.pop('local', True)
+        self.world = cc.maildir_world(kw['tls'], NOLIMIT, md_template())
+        self.n = 0
+
+    def close(self) -> None:
+        self.world.close()
+
+    def connection(self) -> cc.ImapDriver:
+        self.n += 1
+        return cc.ImapDriver(self.env, self.rng, rich=False, local=self.local,
+                             world=self.world, conn=f'c{self.n}')
+
+
+def attempt_trace(h: History, steps: list) -> tuple[list, dict]:
+    """steps: [(form, name, secret, authzid) | 'STARTTLS'] on one new connection.  After every
+    step the probes of ImapDriver.observe (LIST of the marker mailboxes: authenticated?  as
+    whom?  CAPABILITY: what is advertised).  -> (events, replay dict)"""
+    d = h.connection()
+    obs = d.observe(True)
+    obs['last'] = 'INIT'
+    events = [cc.trace_init('imap', obs)]
+    presented = []
+    for st in steps:
+        before = cc.snapshot(h.world)
+        if st == 'STARTTLS':
+            inp = {'kind': 'cmd', 'name': 'STARTTLS'}
+            last = d.execute(inp)
+            presented.append('STARTTLS')
+        else:
+            form, name, secret, authzid = st
+            k, c = classify(name, secret)
+            z = model_name(authzid)
+            if authzid and authzid == name:
+                z = c if c != cc.NONE else 'ghost'
+            inp = {'kind': 'auth', 'form': form, 'cred': {'k': k, 'c': c, 'z': z}}
+            last = d.auth_raw(form, name, secret, authzid)
+            presented.append([form, _show(name), _show(secret), _show(authzid)])
+        after = cc.snapshot(h.world)
+        obs = d.observe(True)
+        obs['last'] = last
+        events.append(cc.trace_event(inp, obs, before != after, events))
+        if obs.get('closed'):
+            break
+    replay = {'check': 'C09', 'kind': 'md-history', 'backend': 'maildir', 'env': h.env,
+              'presented': presented,
+              'steps': [s if s == 'STARTTLS' else [s[0]] + [x.decode('latin1') for x in s[1:]]
+                        for s in steps],
+              'transcript': [(a, b.decode('latin1')[:400]) for a, b in d.transcript[-30:]]}
+    d.close()
+    return events, replay
+
+
+def _show(b: bytes) -> str:
+    s = repr(b)
+    return s if len(s) < 80 else s[:50] + f'...[{len(b)} octets]'
+
+
+def maildir_histories(run: Run, rng, tier: str, traces: list) -> dict:
+    quick = tier == 'quick'
+    t0 = time.time()
+    md_template()
+    cc.register_users({real: m for m, (real, _s) in MD_USERS.items() if real})
+    cc.register_users({m: m for m in MD_GHOSTS})
+    consts = cc.trace_constants()
+    table = md_table()
+    if {m for m, _s in table.values()} != set(consts['Users']):
+        run.machinery(f'Users of {cc.TRACE_SPEC[1]} {sorted(consts["Users"])} differ from the '
+                      f'provisioned ones {sorted(m for m, _s in table.values())}')
+        return {}
+    n0 = len(traces)
+    accepted = 0
+    forms = ['LOGIN', 'PLAIN', 'LOGINMECH']
+
+    def record(ev_rep):
+        nonlocal accepted
+        events, replay = ev_rep
+        ok = any(e.get('auth') not in (cc.NONE, None) for e in events[1:])
+        accepted += ok
+        traces.append((events, replay, False))
+        run.count_exec(['md-history', replay['env'], replay['steps']], nontrivial=ok)
+
+    h = History('plain', rng)
+    try:
+        names = presented_names(h.world.base_dir)
+        for name, near in names:
+            secs = secrets_for(near, rng)
+            if quick and len(secs) > 4:
+                secs = secs[:1] + rng.sample(secs[1:], 3)
+            for i, sec in enumerate(secs):
+                # every secret in one form (all forms in the thorough tier); the first
+                # secret - the one that verifies if the name were read as `near` - in all
+                fs = forms if (i == 0 or not quick) else [forms[(i + len(name)) % 3]]
+                for f in fs:
+                    if f != 'LOGIN' and b'\0' in name:
+                        continue
+                    record(attempt_trace(h, [(f, name, sec, b'')]))
+                    if f == 'PLAIN' and i == 0:
+                        record(attempt_trace(h, [(f, name, sec, name)]))
+        # authorization identities (PLAIN): admins by the roles file / uid 0, ordinary users,
+        # names that are nobody's
+        zs = [b'user1', cc.U2.encode(), b'adm', b'far', b'co:lon', b'orphan', b'User1',
+              b'../user1', b'user1\r\n', b'nopw', b'ghost', b' ', b'user1/']
+        for real, sec in (('gadm', 'gadmpw'), ('root0', 'root0pw'), ('adm', 'admpw'),
+                          ('user1', 'pass1'), ('far', 'farpw'), ('co:lon', 'colonpw')):
+            for z in zs:
+                record(attempt_trace(h, [('PLAIN', real.encode(), sec.encode(), z)]))
+                if not quick or z in (b'user1', b'orphan'):
+                    record(attempt_trace(h, [('PLAIN', real.encode(), b'wrong', z)]))
+        # several attempts on one connection: failures first, then a name that is not quite
+        # an account's, then (re-authentication) another account's right credentials
+        pool = [(n, s) for n, s in names if n and len(n) < 64]
+        for i in range(60 if quick else 1500):
+            steps = []
+            for _ in range(rng.randint(2, 4)):
+                n, near = rng.choice(pool)
+                steps.append((rng.choice(forms), n, rng.choice(secrets_for(near, rng)), b''))
+            if rng.random() < 0.5:
+                real = rng.choice(['user1', 'far', 'co:lon', 'adm'])
+                steps.insert(rng.randrange(len(steps) + 1),
+                             (rng.choice(forms), real.encode(), table[real][1].encode(), b''))
+            steps = [s for s in steps if not (s[0] != 'LOGIN' and b'\0' in s[1])]
+            record(attempt_trace(h, steps))
+    finally:
+        h.close()
+    # LOGINDISABLED environments: before and after STARTTLS
+    for env in ('tlsremote', 'tlslocal'):
+        h = History(env, rng)
+        try:
+            for real, sec in (('user1', 'pass1'), ('far', 'farpw'), ('co:lon', 'colonpw'),
+                              ('nopw', 'nopw-was'), ('orphan', 'orphanpw'), ('User1', 'pass1')):
+                for f in forms:
+                    a = (f, real.encode(), sec.encode(), b'')
+                    record(attempt_trace(h, [a, 'STARTTLS', a]))
+        finally:
+            h.close()
+    return {'traces': len(traces) - n0, 'with_an_accepted_exchange': accepted,
+            'names_presented': len(names), 'wall_s': round(time.time() - t0, 1),
+            'accounts': sorted(MD_USERS) + sorted(MD_GHOSTS)}
+
+
+# --------------------------------------------------------------------------
+
+def starttls_pipelining(run, backend: str = 'dict') -> None:
     """Conn.tla: LOGIN (and AUTHENTICATE PLAIN) change `auth` only in a state in which the
     mechanism is offered, i.e. - remote peer, TLS configured - only after STARTTLS.  What the
     client sent in plain text BEHIND the STARTTLS line (one segment) was not sent inside TLS:
@@ -137,10 +545,14 @@ def starttls_pipelining(run) -> None:
                                      b'LISTSCRIPTS\r\n'),
     }
     for name, (service, blob, probe) in cases.items():
-        w = World('dict', demo=False, users=cc.USERS, tls=True,
-                  config_kw={'bad_command_limit': None})
+        if backend == 'dict':
+            w = World('dict', demo=False, users=cc.USERS, tls=True,
+                      config_kw={'bad_command_limit': None})
+        else:
+            w = cc.maildir_world(True, {'bad_command_limit': None})
         try:
-            cc.provision(w)
+            if backend == 'dict':
+                cc.provision(w)
             c = w.connect('a', local=False, service=service)
             greeting = c.take()
             w.send('a', blob)                    # ONE plain-text segment
@@ -149,16 +561,17 @@ def starttls_pipelining(run) -> None:
             w.send('a', probe)
             w.run_to_completion('a')
             shown = c.take()
-            run.count_exec(('starttls-pipelining', name), nontrivial=True)
+            run.count_exec(('starttls-pipelining', backend, name), nontrivial=True)
             st = c.state
             authed = (st is not None and getattr(st, '_session', None) is not None) \
-                or b'marker_' in shown
+                or b'marker_' in shown or b'"active"' in shown
             if authed:
                 run.violation(
-                    f'{name}: sent in plain text behind STARTTLS in one segment, executed after '
-                    f'the handshake: {out[-160:]!r}; then {probe!r} -> {shown[-120:]!r} '
-                    f'(greeting {greeting[:80]!r})',
-                    {'check': 'C09', 'part': 'starttls-pipelining', 'case': name}, None)
+                    f'{name} ({backend}): sent in plain text behind STARTTLS in one segment, '
+                    f'executed after the handshake: {out[-160:]!r}; then {probe!r} -> '
+                    f'{shown[-120:]!r} (greeting {greeting[:80]!r})',
+                    {'check': 'C09', 'part': 'starttls-pipelining', 'case': name,
+                     'backend': backend}, None)
         finally:
             w.close()
 
@@ -170,46 +583,108 @@ def main(tier: str) -> int:
     quick = tier == 'quick'
     run.cov['rule'] = (
         'executions = sequences of authentication exchanges and commands run on a fresh '
-        'in-process pymap server (IMAP listener and ManageSieve listener, dict backend, '
-        'users user1/user2 ordinary and adm with the admin role) and tracked through the '
-        'TLC state graph of Conn.tla; non-trivial = at least one input changed the '
+        'in-process pymap server (IMAP listener and ManageSieve listener; dict backend and '
+        'maildir backend; users user1 / its look-alike ordinary and adm with the admin role) and '
+        'tracked through the TLC state graph of Conn.tla, plus - maildir - attempts with names '
+        'and accounts Conn has no abstract input for, each judged by TLC on its trace '
+        '(Trace_C09.tla); non-trivial = at least one input changed the '
         'connection state (authenticated as somebody / unauthenticated / TLS / closed); '
-        'distinct = distinct (listener, environment, input sequence)')
+        'distinct = distinct (listener, backend, environment, input sequence)')
     run.assumptions += [
-        'dict backend Login/Identity (the maildir backend shares pymap.user.Passwords and '
-        'the same authenticate/authorize structure; it is not run here)',
         'sha1 BuiltinHash with one round in the harness (the verification path through '
         'pysasl is the same for every hash)',
         'TLS is a flag on a fake transport; "local peer" = AF_UNIX socket family',
-        'token credentials (pymap-admin login tokens) are out of scope: only LOGIN and '
-        'the SASL mechanisms offered (PLAIN, LOGIN)',
+        'login tokens (pymap-admin) are out of scope: neither listener accepts them (only LOGIN '
+        'and the SASL mechanisms PLAIN / LOGIN are offered), and the macaroon plugin cannot be '
+        'loaded here (pymacaroons is not installed: Identity.new_token returns None)',
+        'maildir: default layout (++); the store is a copy of a template an operator-like '
+        'driver built through Identity.set, IMAP / ManageSieve sessions and edits of the '
+        'pymap-etc-* files by hand',
         'the consecutive-BAD limit is switched off (bad_command_limit=None)']
     cc.fingerprints()
-    imap = part(run, rng, IMAP_CFG, tier, t0 + (40 if quick else 500), 0)
-    if imap is None:
+    traces: list = []
+    # (backend, cfg, seconds from the start by which the part has to be done, first id)
+    plan = [('dict', IMAP_CFG, 40 if quick else 500, 0),
+            ('dict', SIEVE_CFG, 66 if quick else 1000, 1000000),
+            ('maildir', IMAP_CFG, 84 if quick else 1600, 2000000),
+            ('maildir', SIEVE_CFG, 94 if quick else 2000, 3000000)]
+    parts: dict = {}
+    for backend, cfg, by, first_id in plan:
+        info = part(run, rng, cfg, backend, tier, t0 + by, first_id, traces)
+        if info is None:
+            return run.finish()
+        key = 'imap' if cfg == IMAP_CFG else 'sieve'
+        parts[(backend, key)] = info
+        run.notes[key if backend == 'dict' else f'{key}_{backend}'] = info
+    try:
+        hist = maildir_histories(run, rng, tier, traces)
+    except Exception as exc:                   # noqa: BLE001
+        import traceback
+        traceback.print_exc()
+        run.machinery(f'maildir histories: {exc!r}')
         return run.finish()
-    run.notes['imap'] = imap
-    sieve = part(run, rng, SIEVE_CFG, tier, t0 + (75 if quick else 1000), 1000000)
-    if sieve is None:
+    if run.machinery_errors:
         return run.finish()
-    run.notes['sieve'] = sieve
-    starttls_pipelining(run)
-    unc = imap['tour']['uncovered']
+    run.notes['maildir_histories'] = hist
+    for backend in BACKENDS:
+        starttls_pipelining(run, backend)
+    run.notes['tlc_trace_validation'] = cc.validate_traces(run, 'C09', traces)
+    run.notes['per_backend'] = {
+        b: {'executions': sum(i['executions'] for (bb, _k), i in parts.items() if bb == b)
+            + (hist.get('traces', 0) if b == 'maildir' else 0),
+            'steps_on_server': sum(i['steps_on_server'] for (bb, _k), i in parts.items()
+                                   if bb == b),
+            'tour_pairs': sum(i['tour']['pairs'] for (bb, _k), i in parts.items() if bb == b),
+            'tour_uncovered': sum(i['tour']['uncovered'] for (bb, _k), i in parts.items()
+                                  if bb == b)}
+        for b in BACKENDS}
+    unc = sum(i['tour']['uncovered'] for i in parts.values())
     run.cov['exhaustive'] = unc == 0
     run.notes['exhaustive_scope'] = (
         'every (state, input) pair of the two Conn_c09 graphs that the server can be '
-        'driven to, with identity probes after each input; every sequence of two inputs '
-        'from the IMAP configuration without TLS (the others sampled in the quick tier)')
-    unc += sieve['tour']['uncovered']
-    run.cov['exhaustive'] = unc == 0
-    if sieve['tour']['pairs_in_states_the_server_never_enters']:
-        run.notes['sieve_unrealised'] = (
-            'the model leaves open (a) whether a local peer is offered mechanisms before '
-            'STARTTLS and (b) whether an admin who names another user acts as that user or '
-            'as himself; the ManageSieve listener offers none and ignores the authorization '
-            'identity, so the model states behind the other choice are never entered')
+        'driven to, with identity probes after each input, on the dict and on the maildir '
+        'backend; every sequence of two inputs from the IMAP configuration without TLS on '
+        'dict; the other sequences of two inputs: all of them in the thorough tier, a seeded '
+        'sample in the quick tier')
+    for b in BACKENDS:
+        info = parts[(b, 'sieve')]
+        if info['tour']['pairs_in_states_the_server_never_enters']:
+            run.notes['sieve_unrealised'] = (
+                'the model leaves open (a) whether a local peer is offered mechanisms before '
+                'STARTTLS and (b) whether an admin who names another user acts as that user or '
+                'as himself; the ManageSieve listener offers none and ignores the authorization '
+                'identity, so the model states behind the other choice are never entered')
+    if parts[('maildir', 'imap')]['tour']['pairs_in_states_the_server_never_enters']:
+        run.notes['maildir_unrealised'] = (
+            'maildir Login.authenticate hands Identity a copy of the role set BEFORE the roles '
+            "of the users / roles files are merged into it, so authorize() never sees a stored "
+            'admin role: an admin who names another user is refused (the dict backend lets him '
+            'act as that user).  The property allows either; the model states "acts as X on the '
+            "admin's credentials\" are never entered on maildir")
     return run.finish()
 
 
 def replay(path: str) -> int:
+    import json
+    rec = json.load(open(path))
+    rep = rec.get('replay', {})
+    if rep.get('kind') == 'md-history':
+        run = Run('C09', 'replay')
+        md_template()
+        cc.register_users({real: m for m, (real, _s) in MD_USERS.items() if real})
+        cc.register_users({m: m for m in MD_GHOSTS})
+        h = History(rep['env'], random.Random(0))
+        try:
+            steps = [s if s == 'STARTTLS' else (s[0],) + tuple(x.encode('latin1') for x in s[1:])
+                     for s in rep['steps']]
+            events, again = attempt_trace(h, steps)
+        finally:
+            h.close()
+        for a, b in again['transcript']:
+            print(a, b[:200].encode('latin1'))
+        for ev in events:
+            print(ev)
+        verdicts, res = tlc.validate_total(cc.TRACE_SPEC[0], cc.TRACE_SPEC[1], [events])
+        print('TLC:', verdicts.get(1), '' if verdicts else res.output[-500:])
+        return 1 if verdicts.get(1, (0, ''))[1] else 0
     return cc.replay_file('C09', path, make_driver_for)
